@@ -144,14 +144,15 @@ Proof.
   (* the rebuild check and the cut-off *)
   rewrite (alpha_sections_filter _) by (intros [t [[]|]]; reflexivity).
   rewrite (for_each_rebuild P p0 upper_c)
-    by (intros t w m a; cbn [bind]; rewrite rebuild_concat; destruct (str_eqb _ t); reflexivity).
+    by (intros t w m a; cbn [bind]; cbv beta; rewrite rebuild_concat; destruct (str_eqb _ t); reflexivity).
   cbn [bind].
   (* the classification: whatever the test is, it only chooses the letter *)
   assert (Erb : rebuild_ok upper_c r = rebuild_all upper_c (alpha_sections sl7) (flat_map fst alphas) (flat_map snd alphas))
     by reflexivity.
   unfold ScorerRt.is_result, ScorerRt.parse_result. rewrite Eem, Eur, Esu, Erb. cbn [negb]. cbv zeta.
-  match goal with |- exists b, run_fn (bind (if ?c then _ else _) _) = _ => exists c; destruct c end;
-    destruct (rebuild_all upper_c _ _ _); reflexivity.
+  destruct (rebuild_all upper_c _ _ _); cbn [negb];
+    repeat match goal with |- context [if ?c then _ else _] => destruct c; cbn [bind] end;
+    first [exists true; reflexivity | exists false; reflexivity].
 Qed.
 
 (* when the segmentation raises: either the translated parse raises too, or it
